@@ -1,3 +1,161 @@
 package main
 
-func runSelfTest(c *Ctx, def *propDef, repo, verif string) (bool, any) { return true, nil }
+// Mutation self-test: positive controls for the rules. Each mutant rewrites
+// one construct of /repo's *current* source in memory (go/packages overlay;
+// nothing is written into /repo or /verif), the analyser is re-run on the
+// variant in its own process, and the rule named by the mutant must report.
+// quick tier: the mutants marked Quick (a handful per property); thorough
+// tier: all of them. A missed mutant means the checker is broken: the run
+// exits non-zero with SELFTEST-MISS and *no* VIOLATION line.
+
+import (
+	"encoding/json"
+	"fmt"
+	"os"
+	"os/exec"
+	"path/filepath"
+	"sort"
+	"strings"
+	"sync"
+)
+
+type mutant struct {
+	ID     string
+	Prop   string
+	File   string // path relative to the repository root
+	Old    string // text to replace (must occur exactly once, or Nth occurrence if N>0)
+	New    string
+	N      int
+	Expect string // rule id that must report
+	Quick  bool
+	Why    string // the realistic change it imitates
+}
+
+var mutants []mutant
+
+func addMutants(ms ...mutant) { mutants = append(mutants, ms...) }
+
+type mutantResult struct {
+	ID       string   `json:"id"`
+	Why      string   `json:"imitates"`
+	Expect   string   `json:"must_be_reported_by"`
+	Status   string   `json:"status"` // detected | MISSED | skipped (target absent) | invalid (does not type-check)
+	Reported []string `json:"reported,omitempty"`
+}
+
+func nthIndex(s, sub string, n int) int {
+	if n <= 0 {
+		if strings.Count(s, sub) != 1 {
+			return -1
+		}
+		return strings.Index(s, sub)
+	}
+	idx := -1
+	from := 0
+	for i := 0; i < n; i++ {
+		j := strings.Index(s[from:], sub)
+		if j < 0 {
+			return -1
+		}
+		idx = from + j
+		from = idx + len(sub)
+	}
+	return idx
+}
+
+func runSelfTest(c *Ctx, def *propDef, repo, verif string) (bool, any) {
+	var todo []mutant
+	for _, m := range mutants {
+		if m.Prop != def.ID {
+			continue
+		}
+		if c.Tier != "thorough" && !m.Quick {
+			continue
+		}
+		todo = append(todo, m)
+	}
+	exe, err := os.Executable()
+	if err != nil {
+		return false, map[string]any{"error": err.Error()}
+	}
+	results := make([]mutantResult, len(todo))
+	sem := make(chan struct{}, 12)
+	var wg sync.WaitGroup
+	for i, m := range todo {
+		wg.Add(1)
+		go func(i int, m mutant) {
+			defer wg.Done()
+			sem <- struct{}{}
+			defer func() { <-sem }()
+			results[i] = runMutant(exe, repo, verif, m)
+		}(i, m)
+	}
+	wg.Wait()
+	ok := true
+	counts := map[string]int{}
+	for _, r := range results {
+		counts[r.Status]++
+		if r.Status == "MISSED" {
+			ok = false
+			fmt.Printf("SELFTEST-MISS rule=%s mutant=%s (%s): reported %v\n", r.Expect, r.ID, r.Why, r.Reported)
+		}
+	}
+	sort.Slice(results, func(i, j int) bool { return results[i].ID < results[j].ID })
+	fmt.Printf("%s self-test: %d mutant(s): %d detected, %d missed, %d skipped, %d invalid\n", def.ID, len(results), counts["detected"], counts["MISSED"], counts["skipped (target absent)"], counts["invalid (does not type-check)"])
+	return ok, map[string]any{"mutants": results, "detected": counts["detected"], "missed": counts["MISSED"], "skipped": counts["skipped (target absent)"], "invalid": counts["invalid (does not type-check)"],
+		"how": "each mutant is an in-memory overlay of one source file of the current tree, analysed in a separate process; the named rule must report"}
+}
+
+func runMutant(exe, repo, verif string, m mutant) mutantResult {
+	res := mutantResult{ID: m.ID, Why: m.Why, Expect: m.Expect}
+	path := filepath.Join(repo, m.File)
+	src, err := os.ReadFile(path)
+	if err != nil {
+		res.Status = "skipped (target absent)"
+		return res
+	}
+	s := string(src)
+	idx := nthIndex(s, m.Old, m.N)
+	if idx < 0 {
+		res.Status = "skipped (target absent)"
+		return res
+	}
+	mut := s[:idx] + m.New + s[idx+len(m.Old):]
+	ov, _ := json.Marshal(map[string]string{path: mut})
+	tmp, err := os.CreateTemp("", "varmqlint-mutant-*.json")
+	if err != nil {
+		res.Status = "invalid (does not type-check)"
+		return res
+	}
+	defer os.Remove(tmp.Name())
+	tmp.Write(ov)
+	tmp.Close()
+	cmd := exec.Command(exe, "-p", m.Prop, "-repo", repo, "-verif", verif, "-overlay", tmp.Name(), "-json", "-no-selftest")
+	out, _ := cmd.Output()
+	line := strings.TrimSpace(string(out))
+	if i := strings.LastIndex(line, "\n"); i >= 0 {
+		line = line[i+1:]
+	}
+	var fs []Finding
+	if err := json.Unmarshal([]byte(line), &fs); err != nil {
+		res.Status = "invalid (does not type-check)"
+		res.Reported = []string{strings.TrimSpace(string(out))}
+		if len(res.Reported[0]) > 300 {
+			res.Reported[0] = res.Reported[0][:300]
+		}
+		return res
+	}
+	for _, f := range fs {
+		res.Reported = append(res.Reported, f.Rule+" "+f.Func+": "+f.Construct)
+		if f.Rule == m.Expect && f.Kind == "violation" {
+			res.Status = "detected"
+		}
+	}
+	if res.Status == "" {
+		res.Status = "MISSED"
+	}
+	if len(res.Reported) > 6 {
+		res.Reported = append(res.Reported[:6], fmt.Sprintf("… %d more", len(res.Reported)-6))
+	}
+	return res
+}
